@@ -59,12 +59,12 @@ theorem puc_true (sc : Scripts) (w : World) (hs : Safe w) (v : Nat) (t : List Ch
       have hturn_u : turnOf w u = true := g4 u text rfl
       -- the input_to bookkeeping
       generalize hw2 : (if (w1.users.get u).inputTo then
-          { w1 with users := upd w1.users u { w1.users.get u with inputTo := false, single := false } } else w1) = w2
+          { w1 with users := upd w1.users u (endInput (w1.users.get u)) } else w1) = w2
       have h2s : w2.slots = w1.slots := by rw [← hw2]; split <;> rfl
       have h2t : ∀ x, turnOf w2 x = turnOf w1 x := by
         intro x; rw [← hw2]; split
         · simp only [turnOf, get_upd]; split
-          · rename_i hx; subst hx; rfl
+          · rename_i hx; subst hx; exact endInput_turn _
           · rfl
         · rfl
       have h2r : ∀ x, x ≠ u → ready w2 x = ready w1 x := by
